@@ -1,9 +1,11 @@
 #!/usr/bin/env python3
 """Generate MANIFEST.json from props.json (claimed properties) and the fixed property list."""
-import json
-props = json.load(open('/verif/props.json'))
-ids = [json.loads(l)['id'] for l in open('/verif/properties.jsonl')]
-NA = json.load(open('/verif/not_applicable.json'))
+import json, os
+ROOT = os.path.dirname(os.path.dirname(os.path.abspath(__file__)))
+import os
+props = {f[:-5]: json.load(open(ROOT+'/props/'+f)) for f in sorted(os.listdir(ROOT+'/props')) if f.endswith('.json')}
+ids = [json.loads(l)['id'] for l in open(ROOT+'/properties.jsonl')]
+NA = json.load(open(ROOT+'/not_applicable.json'))
 checks = []
 for pid in ids:
     if pid not in props: continue
@@ -26,7 +28,7 @@ m = {
         "guard": "verif-hooks",
         "enable": "cargo feature `verif-hooks` of the profirust crate (enabled by /verif/harness/Cargo.toml)",
         "baseline_off_cmd": "cd /repo && cargo test --workspace --no-fail-fast --offline",
-        "source_commits": json.load(open('/verif/hooks.json'))["source_commits"],
+        "source_commits": json.load(open(ROOT+'/hooks.json'))["source_commits"],
         "add_only": True,
     },
     "engines": [{"name": "lean-model+rust-harness", "path": "/verif/lean, /verif/harness, /verif/check",
@@ -36,5 +38,5 @@ m = {
     "not_applicable": [x for x in NA if x["property_id"] not in props],
     "notes": "See DESIGN.md. Every check: lake build of the property's theorems + axiom audit, rebuild of the harness against /repo's working tree, correspondence (implementation vs. Lean model on the same operation lines), property oracle on the implementation's observations, triage against known_findings.json.",
 }
-json.dump(m, open('/verif/MANIFEST.json', 'w'), indent=1)
+json.dump(m, open(ROOT+'/MANIFEST.json', 'w'), indent=1)
 print("claimed:", [c["property_id"] for c in checks], "not_applicable:", [x["property_id"] for x in m["not_applicable"]])
